@@ -62,6 +62,8 @@ def norm(e):
     if e[0] == "int":
         return ("int", e[1])
     out = tuple(norm(x) if isinstance(x, tuple) else x for x in e)
+    if out[0] == "bin" and out[1] == ">" and out[3] == ("int", 0):
+        out = ("bin", "!=", out[2], out[3])          # sizes and counts are unsigned here: x > 0 is x != 0
     if out[0] == "bin" and out[2][0] == "int" and out[3][0] == "int":
         a, b = out[2][1], out[3][1]
         r = {"+": a + b, "-": a - b, "*": a * b, "/": a // b if b else None}.get(out[1])
